@@ -351,6 +351,11 @@ func init() {
 			s.preemptsLeft = n
 			return TupleV{}
 		},
+		zz + "PoolReuse": func(w *W, s *State, args []Value) Value {
+			s.poolReuse = true
+			w.e.noteModel("model:sync.Pool keeps returned objects; Get reuses the most recently Put one (LIFO), New when empty")
+			return TupleV{}
+		},
 		zz + "Preempt": func(w *W, s *State, args []Value) Value {
 			if w.preemptChoice(s) {
 				w.preemptNow(s)
